@@ -682,10 +682,17 @@ func oracle(ops, outs []string) *corr.Violation {
 			case o.typ == "sc" && signedBy(o.signed, id) == 1:
 				// a signed transfer whose signature verifies for this account
 			case o.typ == "sc" && signedBy(o.signed, id) == -1:
-				if deferred != nil {
+				sig := "invalid-signed-transfer-applied"
+				if id == iWallet2 {
+					// the harness's deliberately mis-registered wallet: its signers are valid keys but not shares of its own key
+					sig = "invalid-signed-transfer-applied:wallet-signers-are-not-key-shares"
+					if deferred != nil {
+						continue
+					}
+					deferred = mk(sig, who+" through a signed transfer whose signature does NOT verify for that account (the engine validates before the contract runs, never after)", i)
 					continue
 				}
-				deferred = mk("signed-transfer-invalid-signature-applied", who+" through a signed transfer whose signature does NOT verify for that account (the engine validates before the contract runs, never after)", i)
+				return mk(sig, who+" through a signed transfer whose signature does NOT verify for that account", i)
 			case o.grantSeen && id == iOwner:
 				if !o.grantValid {
 					return mk("free-grant-invalid-marker", who+" (storage owner) under a marker the harness finds invalid", i)
@@ -743,7 +750,7 @@ func main() {
 			if th {
 				return 400
 			}
-			return 40
+			return 80
 		},
 		Fixed: fixedCases(),
 		Nontrivial: func(ops, outs []string) bool {
